@@ -84,8 +84,24 @@ func NewValue(typ *meta.Type, v interface{}) (result val.Value, err error) {
 		return nil, fmt.Errorf("could not convert %v to any of the allowed types", v)
 	case val.FmtUnionList:
 		return toUnionList(typ, v)
-	case val.FmtLeafRef, val.FmtLeafRefList:
+	case val.FmtLeafRef:
 		return NewValue(typ.Resolve(), v)
+	case val.FmtLeafRefList:
+		// a leaf-list of references to a leaf holds a list of the leaf's type
+		target := typ.Resolve()
+		switch target.Format().Single() {
+		case val.FmtIdentityRef:
+			return toIdentRefList(target.Base(), v)
+		case val.FmtEnum:
+			return toEnumList(target.Enum(), v)
+		case val.FmtBits:
+			return toBitsList(target.Bits(), v)
+		case val.FmtUnion:
+			return toUnionList(target, v)
+		case val.FmtLeafRef:
+			return NewValue(target, v)
+		}
+		return val.Conv(target.Format().List(), v)
 	case val.FmtBitsList:
 		return toBitsList(typ.Bits(), v)
 	case val.FmtBits:
